@@ -109,6 +109,32 @@ def gen_cases(ctx):
         if oc == 5 and rng.random() < 0.5 and set(la) <= set(lb):
             b = relist(rng, kind, a, lb)
         cases.append((kind, oc, 0, a, b))
+    # LONG lists (16 .. 70 names - beyond any threshold a "small list" fast path might have): the same names with two
+    # interior ones exchanged, reversed, a NARROW operand on the wide one's leading names in another order (either side),
+    # two long lists that share only their last name
+    huge = ["v%d" % i for i in range(70)]
+    for n in ([16, 20, 33, 40, 65, 70] if th else [16, 33, 66]):
+        la = huge[:n]
+        variants = []
+        lb = list(la); i, j = rng.sample(range(1, n - 1), 2); lb[i], lb[j] = lb[j], lb[i]
+        variants.append(lb)
+        variants.append(list(reversed(la)))
+        m = rng.randint(2, 4)
+        lead = la[:m]; rng.shuffle(lead)
+        if lead == la[:m]:
+            lead = list(reversed(lead))
+        variants.append(lead)
+        variants.append(["w%d" % i for i in range(n - 1)] + [la[-1]])
+        for lb in variants:
+            for kind in (1, 2):
+                if kind == 2 and n > 40 and len(lb) > 8 and not th:
+                    continue
+                for oc in rng.sample([0, 1, 2, 3, 5], 2 if not th else 5):
+                    a, b = mk(rng, kind, la), mk(rng, kind, lb)
+                    if oc == 5 and set(lb) == set(la):
+                        b = relist(rng, kind, a, lb)
+                    cases.append((kind, oc, 0, a, b))
+                    cases.append((kind, oc, 0, b, a))
     return cases
 
 
